@@ -1,5 +1,6 @@
 import PhononModel.Lemmas.SymmetrizeCompact
 import PhononModel.Lemmas.GroupAverage
+import PhononModel.Lemmas.SymmetrizeLoop
 import Mathlib.Tactic.FinCases
 import Mathlib.Tactic.NormNum
 /-!
@@ -114,6 +115,25 @@ theorem compactSym_idempotent {np ns nt : Nat} (hns : 0 < ns) (T : CTables np ns
   rw [← compress_expand h (compactSym T L' (compactSym T (L+1) Φc)), compact_eq_full T hwf,
     compact_eq_full T hwf, fullSym_idempotent hns, ← compact_eq_full T hwf, compress_expand h]
 
+/-! ### the in-place C loop (literal model, source order, `done` table) -/
+
+/-- The repaired loop of `phpy_set_index_permutation_symmetry_compact_fc` (transpose mode)
+computes the closed form `transposeC` — for every table set passing the certificate, every
+size and every array: the in-place update order and the `done` bookkeeping are correct. -/
+theorem transposeLoop_eq {np ns nt : Nat} (T : CTables np ns nt) (hwf : T.wf = true)
+    (Φc : CFC np ns K) : transposeLoop T Φc = transposeC T Φc := by
+  rw [transposeLoop_eq_transposeC (T.wf_sound hwf)]
+  funext ip j k l; simp
+
+/-- The in-place sequential loop of `set_index_permutation_symmetry_fc` (full layout) equals the
+closed form `permSym` the other theorems are about — every size, every array. -/
+theorem permSymLoop_eq_closed {n : Nat} (Φ : FC n K) : permSymLoop Φ = permSym Φ := permSymLoop_eq Φ
+
+/-- …and therefore acts on the expanded array as the transposition. -/
+theorem transposeLoop_spec {np ns nt : Nat} (T : CTables np ns nt) (hwf : T.wf = true)
+    (Φc : CFC np ns K) : expand T (transposeLoop T Φc) = transposeF (expand T Φc) := by
+  rw [transposeLoop_eq T hwf]; exact expand_transposeC (T.wf_sound hwf) Φc
+
 /-! ### space-group average (`set_tensor_symmetry_PJ`) is a projection -/
 
 section PJ
@@ -180,6 +200,15 @@ theorem compactSymF_spec {np ns nt : Nat} (T : CTables np ns nt) (L : Nat) (A : 
   exact iter_stage_spec (fun A => (thaw4 A : CFC np ns K)) (symStepC T) _ (fun A => by
     simp only [stage4_spec]; rfl) L A
 
+/-- the staged evaluator that runs the literal permutation loop computes `fullSym` as well -/
+theorem fullSymLoopF_spec (n L : Nat) (A : Frozen4 K) :
+    thaw4 (fullSymLoopF n L A) = fullSym L (thaw4 A : FC n K) := by
+  unfold fullSymLoopF fullSym
+  rw [stage4_spec]
+  congr 1
+  exact iter_stage_spec (fun A => (thaw4 A : FC n K)) symStep _ (fun A => by
+    simp only [stage4_spec, permSymLoop_eq]; rfl) L A
+
 /-! ### non-vacuity: a concrete table set passes the certificate and has a self-inverse
 translation (2 atoms of one sublattice, translation of order 2 — the F2 situation). -/
 def T2 : CTables 1 2 2 where
@@ -190,6 +219,16 @@ def T2 : CTables 1 2 2 where
 
 example : T2.wf = true := by decide
 example : T2.perms 1 (T2.perms 1 0) = 0 ∧ T2.perms 1 0 ≠ 0 := by decide
+
+/-- F2 in the model: the loop as it was before the repair leaves a self-paired block
+untransposed — on the two-atom table set above the statement `transposeLoop_eq` is false for it. -/
+def Φpin : CFC 1 2 ℚ := fun _ j k l => if j = 1 ∧ k = 0 ∧ l = 1 then 1 else 0
+theorem transposeLoopPinned_counterexample : transposeLoopPinned T2 Φpin ≠ transposeC T2 Φpin := by
+  intro h
+  have := congrFun (congrFun (congrFun (congrFun h 0) 1) 1) 0
+  revert this
+  decide +kernel
+example : transposeLoop T2 Φpin 0 1 1 0 = 1 ∧ transposeLoopPinned T2 Φpin 0 1 1 0 = 0 := by decide +kernel
 
 /-- a concrete invariant array (n = 2): hypotheses of `fullSym_fixes_invariant` are satisfiable
 by a non-zero array. -/
@@ -214,6 +253,11 @@ end PhononModel.C07
 #print axioms PhononModel.C07.full_compact_full
 #print axioms PhononModel.C07.expanded_is_periodic
 #print axioms PhononModel.C07.compactSym_idempotent
+#print axioms PhononModel.C07.transposeLoop_eq
+#print axioms PhononModel.C07.transposeLoop_spec
+#print axioms PhononModel.C07.permSymLoop_eq_closed
+#print axioms PhononModel.C07.fullSymLoopF_spec
+#print axioms PhononModel.C07.transposeLoopPinned_counterexample
 #print axioms PhononModel.C07.pj_output_invariant
 #print axioms PhononModel.C07.pj_fixes_invariant
 #print axioms PhononModel.C07.pj_idempotent
